@@ -77,6 +77,7 @@ PROBES = [
     "filter_with_cacheable_nodes_evaluated", "reuse_depth_ge_100", "preempted_inside_compile", "preempted_inside_filter",
     "abandoned_mid_filter", "cancel_inside_evaluation", "repurge_between_regex_calls", "same_query_two_docs_midflight",
     "preempt_same_file_two_threads", "compiled_many_other_texts", "short_lived_documents", "filter_raised_type_error",
+    "foreign_environment_in_process",
 ]
 _SCRATCH_ENV = tripwire.register(jsonpath.JSONPathEnvironment())
 tripwire.register(jsonpath.DEFAULT_ENV)  # a constant, stateless addition to the module-level environment
@@ -150,12 +151,26 @@ def generate(seed: int, config: str, tier: str) -> Dict[str, Any]:
     if regex_heavy:
         opts["p_regex_fn"] = 0.5  # regex-heavy: the function-extension instances are shared by every evaluation
         opts["p_flat"] = 0.6
-    queries: List[str] = []
-    for _ in range(rng.randint(2, 6)):
-        d = rng.choice(docs)
-        queries.extend(
-            gen_query.gen_queries(rng, _SCRATCH_ENV, d, 1, ctx_doc=ctxs[0], opts=opts, p_compound=0.1, must_filter=rng.random() < 0.8)
-        )
+    # a differently configured environment living in the same process (iterator and thread configurations)
+    foreign = None
+    if kind != "tasks" and rng.random() < 0.2:
+        foreign = {"when": rng.choice(["early", "late"]), "caching": rng.random() < 0.5}
+        opts["p_str_lit"] = 0.3  # string literals whose escapes the two configurations decode differently
+    qrng = core.stream(seed, "queries")
+
+    def _gen_queries() -> List[str]:
+        out: List[str] = []
+        for _ in range(qrng.randint(2, 6)):
+            d = qrng.choice(docs)
+            out.extend(
+                gen_query.gen_queries(qrng, _SCRATCH_ENV, d, 1, ctx_doc=ctxs[0], opts=opts, p_compound=0.1, must_filter=qrng.random() < 0.8)
+            )
+        return out
+
+    # Generating queries compiles every candidate text once (to drop the ones the library refuses).  When the run
+    # is about what another configuration leaves behind in the process, even that must not happen in the process
+    # that executes the run: generate in a forked child.
+    queries: List[str] = core.in_child(_gen_queries) if foreign is not None else _gen_queries()
     envs = [e for e in ENVS if rng.random() < 0.6] or [rng.choice(ENVS)]
     deep = tier == "thorough"  # larger worlds in the thorough tier
     n_clients = rng.randint(2, 8 if deep else 6) if kind != "threads" else rng.randint(2, 5 if deep else 4)
@@ -173,6 +188,9 @@ def generate(seed: int, config: str, tier: str) -> Dict[str, Any]:
             di = rng.randrange(len(docs))
             ci = rng.randrange(len(ctxs))
             r = rng.random()
+            if foreign is not None and rng.random() < 0.12:
+                script.append(["foreign", e, rng.randrange(len(queries)), di, ci])
+                continue
             if kind == "iter":
                 if r < 0.45:
                     ab = frng.randrange(4) if (faulty and frng.random() < 0.2) else None
@@ -243,7 +261,8 @@ def generate(seed: int, config: str, tier: str) -> Dict[str, Any]:
         if ss:
             p, k = frng.choice(ss)
             faults["storeerr"].append([p, k, frng.choice(["store", "key", "index", "type", "value"])])
-    plan = {"kind": kind, "docs": docs, "wraps": wraps, "ctxs": ctxs, "queries": queries, "envs": envs, "clients": clients, "faults": faults}
+    plan = {"kind": kind, "docs": docs, "wraps": wraps, "ctxs": ctxs, "queries": queries, "envs": envs, "clients": clients, "faults": faults,
+            "foreign": foreign}
     knobs = {"p_sched": rng.choice([0.3, 0.5, 0.7]), "p_get": rng.choice([0.3, 0.6]), "p_quantum": rng.choice([0.5, 0.8, 0.95])}
     return {"property": PROPERTY, "config": config, "seed": seed, "knobs": knobs, "plan": plan}
 
@@ -322,18 +341,20 @@ class World:
         self.ctxs: List[Any] = [copy.deepcopy(c) for c in plan["ctxs"]]
         # sequential specification: an environment of its own with caching off, a fresh compile per evaluation
         self._ref_env = tripwire.register(jsonpath.JSONPathEnvironment(filter_caching=False))
+        self.foreign = plan.get("foreign")
         self.refs: Dict[Tuple[int, int, int], _Ref] = {}
-        for script in plan["clients"]:
-            for op in script:
-                if len(op) < 5:
-                    continue
-                qi = op[2] % len(self.texts)
-                ci = op[4] % len(self.ctxs)
-                dis = (list(op[3]) + [0]) if isinstance(op[3], list) else [op[3]]
-                for d in dis:
-                    key = (qi, d % len(self.docs), ci)
-                    if key not in self.refs:
-                        self.refs[key] = self._reference(self.texts[qi], key[1], ci)
+        self.frefs: Dict[Tuple[int, int, int], _Ref] = {}
+        self.foreign_env: Any = None
+        self.foreign_compiled: Dict[int, Any] = {}
+        if self.foreign:
+            # References first, in a forked child: whatever the foreign environment does to process-global
+            # state afterwards (or did, had it come first) cannot reach into them.
+            self.refs, self.frefs, self.child_strs = core.in_child(self._all_refs)
+            ctx.count("probe.foreign_environment_in_process")
+            if self.foreign["when"] == "early":
+                self._make_foreign()
+        else:
+            self.refs, _, self.child_strs = self._all_refs(False)
         for r_ in self.refs.values():
             if r_.exc == "JSONPathTypeError" or r_.all_exc == "JSONPathTypeError":
                 ctx.count("probe.filter_raised_type_error")
@@ -350,6 +371,10 @@ class World:
                 self.compiled[(e, qi)] = c
                 self.compiled_str[(e, qi)] = str(c)
                 self.compiled_sel[(e, qi)] = self._selinfo(c)
+        if self.foreign and self.foreign["when"] == "late":
+            self._make_foreign()
+        if self.foreign:
+            self._check_child_strs()
         self.doc_snap = [core.tj(d) for d in self.docs]
         self.doc_ids: List[List[int]] = []
         for d in self.docs:
@@ -366,6 +391,70 @@ class World:
         self.retained: List[Tuple[Any, Any, str]] = []
         self.has_cacheable = [self._cacheable(self.pristine[qi]) for qi in range(len(self.texts))]
         self.uses_regex_fn = [("match(" in t or "search(" in t) for t in self.texts]
+
+    def _all_refs(self, with_strs: bool = True) -> Any:
+        refs: Dict[Tuple[int, int, int], _Ref] = {}
+        frefs: Dict[Tuple[int, int, int], _Ref] = {}
+        strs: Dict[str, Any] = {}
+        if with_strs:
+            # how each text prints when compiled where nothing else has been compiled yet
+            fenv = tripwire.foreign_environment(False)
+            for qi, t in enumerate(self.texts):
+                for name, env in (("std", self._ref_env), ("foreign", fenv)):
+                    try:
+                        strs[f"{name}:{qi}"] = str(env.compile(t))
+                    except Exception as ex:  # noqa: BLE001
+                        strs[f"{name}:{qi}"] = ("exc", type(ex).__name__)
+        for script in self.plan["clients"]:
+            for op in script:
+                if len(op) < 5:
+                    continue
+                qi = op[2] % len(self.texts)
+                ci = op[4] % len(self.ctxs)
+                dis = (list(op[3]) + [0]) if isinstance(op[3], list) else [op[3]]
+                for d in dis:
+                    key = (qi, d % len(self.docs), ci)
+                    if op[0] == "foreign":
+                        if key not in frefs:
+                            frefs[key] = self._reference(self.texts[qi], key[1], ci, tripwire.foreign_environment(False))
+                    elif key not in refs:
+                        refs[key] = self._reference(self.texts[qi], key[1], ci)
+        return refs, frefs, strs
+
+    def _check_child_strs(self) -> None:
+        """Compiling a text must give the same query whatever else was compiled in the process before."""
+        for qi, t in enumerate(self.texts):
+            for (e, q), c in self.compiled.items():
+                if q != qi:
+                    continue
+                want = self.child_strs.get(f"std:{qi}")
+                if want is not None and not isinstance(want, tuple) and str(c) != want:
+                    raise Violation(
+                        "C09.recompile",
+                        f"{t!r} compiled on environment {e} prints {str(c)!r}; compiled where no differently configured "
+                        f"environment had been used it prints {want!r}",
+                        "C09.recompile:depends-on-other-environment",
+                    )
+            fc = self.foreign_compiled.get(qi)
+            want = self.child_strs.get(f"foreign:{qi}")
+            if fc is not None and want is not None:
+                got: Any = ("exc", type(fc).__name__) if isinstance(fc, Exception) else str(fc)
+                if (isinstance(want, tuple)) != (isinstance(got, tuple)) or (not isinstance(want, tuple) and got != want):
+                    raise Violation(
+                        "C09.recompile",
+                        f"{t!r} compiled on the differently configured environment gives {got!r}; compiled where no other "
+                        f"environment had been used it gives {want!r}",
+                        "C09.recompile:foreign-depends-on-other-environment",
+                    )
+
+    def _make_foreign(self) -> None:
+        """Build the differently configured environment and compile every text of the run on it."""
+        self.foreign_env = tripwire.foreign_environment(bool(self.foreign.get("caching", True)))
+        for qi, t in enumerate(self.texts):
+            try:
+                self.foreign_compiled[qi] = self.foreign_env.compile(t)
+            except Exception as ex:  # noqa: BLE001
+                self.foreign_compiled[qi] = ex
 
     def fresh_doc(self, i: int) -> Any:
         """A new copy of document *i*, wrapped (same failing sites) exactly like the shared one."""
@@ -406,8 +495,8 @@ class World:
             return False
         return False
 
-    def _reference(self, text: str, di: int, ci: int) -> _Ref:
-        env = self._ref_env
+    def _reference(self, text: str, di: int, ci: int, env: Any = None) -> _Ref:
+        env = env or self._ref_env
         ms: List[Any] = []
         exc: Optional[str] = None
         try:
@@ -577,6 +666,26 @@ def _sync_op(w: World, ctx: Ctx, cid: int, op: List[Any], yield_point: Any = Non
         ctx.state("iter", "-", "repurge")
         return None
     e, qi, di, ci = _idx(op, w)
+    if kind == "foreign":
+        fc = w.foreign_compiled.get(qi)
+        fref = w.frefs.get((qi, di, ci))
+        if fc is None or fref is None:
+            return None
+        gotf: List[Any] = []
+        excf: Optional[str] = None
+        if isinstance(fc, Exception):
+            excf = type(fc).__name__
+        else:
+            try:
+                for m in fc.finditer(w.docs[di], **w.kw(ci)):
+                    gotf.append((m.path, core.tj(m.obj)))
+            except Exception as ex:  # noqa: BLE001
+                excf = type(ex).__name__
+        ctx.log.add("foreign", cid, qi, di, ci, excf or len(gotf))
+        ctx.state("sync", "foreign", "evaluate")
+        w.check_all(f"client {cid}: {w.texts[qi]!r} on the differently configured environment (no escape decoding, other "
+                    f"function table), document {di}, context {ci}", gotf, excf, fref)
+        return None
     c = w.compiled[(e, qi)]
     ref = w.refs[(qi, di, ci)]
     desc = f"client {cid}: {kind} {w.texts[qi]!r} (env {e}) on document {di}, context {ci}"
